@@ -6571,7 +6571,8 @@ class SFTPServerHandler(SFTPHandler):
         compose_paths: List[bytes] = []
 
         if self._version >= 6:
-            check = packet.get_byte()
+            # The control byte is optional, with no check as its default
+            check = packet.get_byte() if packet else FXRP_NO_CHECK
 
             while packet:
                 compose_paths.append(packet.get_string())
